@@ -194,6 +194,27 @@ def cmp_c11(case, got):
     return bad
 
 
+def cmp_c14(case, got):
+    if got.get("panic") or got.get("error"):
+        return [("discovery failed: %s" % got.get("error"), "error")]
+    bad = []
+    want = {("/".join(e["loc"]), e["kind"], e["applies_to"]) for e in case["expect"]}
+    have = {("/".join(f["loc"]), f["kind"], f["applies_to"]) for f in got["found"]}
+    desc = "files %s exclude %s watches %s" % (
+        sorted("%s/%s=%s" % ("/".join(f["loc"]) or ".", f["kind"], f["lines"]) for f in case["files"]),
+        case["exclude"]["lines"] if case["exclude"]["on"] else "-", ["/".join(w) for w in case["watches"]])
+    for m in sorted(want - have):
+        bad.append(("not found: %s %s (%s); %s" % (m[0] or ".", m[1], m[2], desc), "missing"))
+    for m in sorted(have - want):
+        bad.append(("found but should not be: %s %s (%s); %s" % (m[0] or ".", m[1], m[2], desc), "unexpected"))
+    for f in got["found"]:
+        if not f["applies_in_ok"]:
+            bad.append(("%s %s is tagged with the wrong directory; %s" % ("/".join(f["loc"]) or ".", f["kind"], desc), "applies_in"))
+    if got["errors"]:
+        bad.append(("discovery reported errors %s; %s" % (got["errors"], desc), "errors"))
+    return bad
+
+
 def cmp_c19(case, got):
     k = case["kind"]
     if got.get("error"):
@@ -213,6 +234,17 @@ def cmp_c19(case, got):
 
 
 SPECS = {
+    "C14": dict(
+        module="Discover.tla", runner="discover", cmp=cmp_c14, seeded=True, workers=8,
+        nontrivial=lambda c: any(f["lines"] for f in c["files"]),
+        cfgs=dict(quick=["Discover_one.cfg", "Discover_two.cfg", "Discover_sample.cfg"],
+                  thorough=["Discover_one.cfg", "Discover_two.cfg", "Discover_sample_big.cfg"]),
+        rule="configurations with at least one non-empty ignore file; distinct by (files with their lines, .git/info/exclude, explicit watches); every one is also explored by TLC under every directory listing order",
+        exhaustive=False,
+        assumptions=["Discover.tla: a fixed tree (test, tests, a, .git, test/sub, tests/sub), ignore files of the three walked kinds in four directories with seven possible contents, optional .git/info/exclude, optional explicit watches",
+                     "the real tree is created in several directory-creation orders; the listing orders themselves are explored exhaustively on the model of the walker",
+                     "core.excludesFile in .git/config, the Bazaar/Darcs/Fossil origin files and explicit ignore files are not part of the universe"],
+    ),
     "C11": dict(
         module="GlobsetVerdict.tla", runner="globset", cmp=cmp_c11, seeded=True, workers=8,
         nontrivial=lambda c: any(e["pass"] for e in c["expect"]) and any(not e["pass"] for e in c["expect"]),
